@@ -39,6 +39,14 @@ def _case(draw, worlds):
     # a factor-only step, needs (2,3) with >= 4 steps or (3,2) with >= 5)
     fus, ius = draw(st.sampled_from([(1, 1), (1, 2), (1, 3), (2, 1), (2, 2), (3, 1), (3, 3), (2, 3), (3, 2), (2, 3), (3, 2)]))
     steps = draw(st.integers(4, 6)) if (ius % fus != 0) else draw(st.integers(1, 4))
+    if draw(st.integers(0, 4)) == 0:
+        # an interval that itself changes during the run (lookup table t[step % len]); needs a few more steps to matter
+        which = draw(st.sampled_from(['inv', 'inv', 'factor', 'both']))
+        if which in ('inv', 'both'):
+            ius = {'table': draw(st.lists(st.integers(1, 3), min_size=2, max_size=5))}
+        if which in ('factor', 'both'):
+            fus = {'table': draw(st.lists(st.integers(1, 3), min_size=2, max_size=4))}
+        steps = draw(st.integers(4, 7))
     case = {
         'W': W, 'method': method, 'prediv': prediv, 'spec': spec,
         'in_hook': draw(st.booleans()), 'accum': draw(st.sampled_from([1, 1, 2])),
@@ -66,7 +74,7 @@ class C02(Prop):
     id = 'C02'
     title = 'Distributed work placement is semantically transparent'
     rule = ('Hypothesis draws W in {1,2,3,4,6,8} (thorough adds 12,16), a model of 1-4 layers with unequal factor sizes, method x pre-division, '
-            'hook/no-hook factor updates, accumulation 1-2, intervals (1-3,1-3), damping constant or table-driven, zero_grad with set_to_none on/off, equal per-rank batches 1-4, 1-4 steps with SGD updates, '
+            'hook/no-hook factor updates, accumulation 1-2, intervals (1-3,1-3) with non-multiples over-weighted and, in a fifth of the cases, lookup tables that change the interval during the run, damping constant or table-driven, zero_grad with set_to_none on/off, equal per-rank batches 1-4, 1-4 steps with SGD updates, '
             'and TWO placements (divisor k given as float or enum, colocate, COMPUTE/MEMORY heuristic, bucket cap in {0, 10 B, 120 B, 400 B, 25 MB}, '
             'symmetry-aware) plus three drawn schedules. The real KFACPreconditioner runs on W simulated ranks (vkit/simdist) whose '
             'interleaving and async buffer read/write timing are drawn. Relations: (1) all ranks bit-identical after every step; (2) placement '
@@ -226,7 +234,8 @@ class C02(Prop):
         strat = lambda c: 'COMM' if c['k'] == W else 'MEM' if c['k'] == 1 else 'HYBRID'
         labels = {'W': W, 'strategyA': strat(cA), 'strategyB': strat(cB), 'method': case['method'], 'prediv': case['prediv'],
                   'bucketed': cA['cap'] > 0, 'symmetry': cA['symmetry'], 'in_hook': case['in_hook'], 'accum': case['accum'],
-                  'intervals': f"{case['hp']['factor_update_steps']},{case['hp']['inv_update_steps']}"}
+                  'intervals': 'changing' if any(isinstance(case['hp'][k], dict) for k in ('factor_update_steps', 'inv_update_steps'))
+                  else f"{case['hp']['factor_update_steps']},{case['hp']['inv_update_steps']}"}
 
         def viol(res, what):
             v = res.violations[0]
